@@ -41,4 +41,5 @@ def jobs(tier):
     out += matrix_jobs('C04', 'm1', tier)
     out += matrix_jobs('C04', 'm2', tier)
     out += matrix_jobs('C04', 'm3', tier)
+    out += matrix_jobs('C04', 'm4', tier)
     return flat(out)
